@@ -204,6 +204,18 @@ def check_case(rec, case):
             o = call(getattr(da, name), D)
             if not o.ok:
                 report_failure(rec, o, name)
+        if case.get('scr') is not None or len(R[0]) >= 4:
+            # the same OBJECT through all constructions, changed in place, and through all of them again (each call is judged
+            # against the content of its operand at the time of the call)
+            D = adapt.build_dfa(R, scramble=case.get('scr'))
+            for round_ in (0, 1):
+                for name in ('dfa_complement', 'dfa_reverse', 'dfa_no_prefix', 'dfa_no_extend', 'dfa_remove_unreachable_states', 'dfa_make_total'):
+                    o = call(getattr(da, name), D)
+                    if not o.ok:
+                        report_failure(rec, o, name, after_in_place_change=bool(round_))
+                if round_ == 0 and not common.mutate_in_place(D, repr(R)):
+                    break
+                rec.counters['requery_after_in_place_change'] += round_
         # reference self-check on bounded words: definitions of prefix-free / non-extendable parts
         L = fa.language_upto(R, 4)
         np_ = fa.language_upto(fa.r_no_prefix(R), 4)
